@@ -60,7 +60,7 @@ func FormatCSVValue(builder *strings.Builder, t octosql.Type, value octosql.Valu
 	case octosql.TypeIDString:
 		builder.WriteString(value.Str)
 	case octosql.TypeIDTime:
-		builder.WriteString(value.Time.Format(time.RFC3339))
+		builder.WriteString(value.Time.Format(time.RFC3339Nano))
 	case octosql.TypeIDDuration:
 		builder.WriteString(fmt.Sprint(value.Duration))
 	case octosql.TypeIDList, octosql.TypeIDStruct, octosql.TypeIDTuple:
